@@ -575,8 +575,8 @@ def _intersects(p1, q1, p2, q2):
     if (_equals(p1, q1) and _equals(p2, q2)) or (_equals(p1, q2) and _equals(p2, q1)):
         return True
 
-    return _area(p1, q1, p2) > 0 != _area(p1, q1, q2) > 0 and \
-        _area(p2, q2, p1) > 0 != _area(p2, q2, q1) > 0
+    return (_area(p1, q1, p2) > 0) != (_area(p1, q1, q2) > 0) and \
+        (_area(p2, q2, p1) > 0) != (_area(p2, q2, q1) > 0)
 
 
 def _intersects_polygon(a, b):
